@@ -18,7 +18,7 @@ func init() {
 		Explanation: "Decided on glow.RateLimiter: the whole body of Allow, including the clock read, is one critical section of RateLimiter.mu (so any concurrent schedule is a sequence of Allow bodies); every access to the request list is under the lock; " +
 			"the admission decision is exactly len(kept) < limit; true is returned only on the path that appends the timestamp read in this call; the retention test is t.After(now.Add(-rate)) on the stored timestamps with the receiver/argument roles as stated, " +
 			"every value the expiry step stores to the list is, on every feasible way it can come about (join phis taken apart, ways refuted by BOUND removed), either the suffix that starts at the index where an upward scan from index 0 first found a retained element, or the empty list on the ways on which no retained element was found. These are shape-conditional necessary conditions: a different algorithm is reported as undecided, not as held. " +
-			"NOT decided: wall-clock behaviour, scheduler effects and the interval-arithmetic judgement over real arrival schedules (inherently dynamic); monotonicity of time.Now is trusted (timestamps are appended in increasing order).",
+			"The len(reqs) that the admission test measures is reached only through an expiry write of this call and before this call is recorded; the endpoint rule of C14 (an archive is built only after Allow() == true) is re-run. NOT decided: wall-clock behaviour, scheduler effects and the interval-arithmetic judgement over real arrival schedules (inherently dynamic); monotonicity of time.Now is trusted (timestamps are appended in increasing order).",
 		Assumptions: append([]string{"time.Now is monotone within one process (Go monotonic clock reading)", "sync.Mutex provides mutual exclusion"}, baseAssumptions...),
 		Run:         runC19,
 	})
@@ -107,10 +107,82 @@ func runC19(c *an.Ctx) {
 		cases = append(cases, retCase{fi.Term(ret.Results[0]), fi.FactsAt(ret), b, ret})
 	}
 	records := recordStores(fi, allow, nowT.Key())
+	// the list the admission test looks at is the list as the expiry step of THIS call left it: the value of reqs that
+	// is measured was written by the expiry stores (or by an expiry helper called with this call's clock value)
+	var expiryDefs []ssa.Instruction
+	for _, b := range allow.Blocks {
+		for _, in := range b.Instrs {
+			switch x := in.(type) {
+			case *ssa.Store:
+				if f, ok := fi.RefClass(x.Addr).FieldOf("RateLimiter"); ok && f == "reqs" {
+					isRec := false
+					for _, r := range records {
+						if r == x {
+							isRec = true
+						}
+					}
+					if !isRec {
+						expiryDefs = append(expiryDefs, x)
+					}
+				}
+			case *ssa.Call:
+				if sc := x.Call.StaticCallee(); sc != nil && sc.Pkg == allow.Pkg && strings.Contains(an.FuncName(sc), "RateLimiter") {
+					for _, a := range x.Call.Args {
+						if fi.Term(a).Key() == nowT.Key() {
+							expiryDefs = append(expiryDefs, x)
+						}
+					}
+				}
+			}
+		}
+	}
+	// every path from the entry to the load passes an expiry write first
+	postExpiry := func(ld *an.Term) bool {
+		li, ok := ld.Val.(ssa.Instruction)
+		if !ok || ld.K != an.KLoad || len(expiryDefs) == 0 {
+			return false
+		}
+		// ... and this call has not been recorded yet when the list is measured
+		for _, r := range records {
+			if (r.Block() == li.Block() && an.Dominates(r, li)) || (r.Block() != li.Block() && reachable(r.Block(), li.Block())) {
+				return false
+			}
+		}
+		cut := map[*ssa.BasicBlock]bool{}
+		for _, d := range expiryDefs {
+			if d.Block() == li.Block() {
+				if an.Dominates(d, li) {
+					return true // same block, before the load
+				}
+				continue
+			}
+			cut[d.Block()] = true
+		}
+		seen := map[*ssa.BasicBlock]bool{}
+		stack := []*ssa.BasicBlock{allow.Blocks[0]}
+		for len(stack) > 0 {
+			b := stack[len(stack)-1]
+			stack = stack[:len(stack)-1]
+			if seen[b] || cut[b] {
+				continue
+			}
+			seen[b] = true
+			if b == li.Block() {
+				return false
+			}
+			stack = append(stack, b.Succs...)
+		}
+		return true
+	}
+	staleTest := false
 	isLimitTest := func(t *an.Term) bool {
 		if t.K == an.KBin && t.S == "<" && t.A[0].K == an.KLen {
 			if fld, _, ok := mapFieldOfTerm(t.A[0].A[0]); ok && fld == "reqs" {
 				if f2, _, ok := mapFieldOfTerm(t.A[1]); ok && f2 == "limit" {
+					if !postExpiry(t.A[0].A[0]) {
+						staleTest = true
+						return false
+					}
 					return true
 				}
 			}
@@ -197,6 +269,9 @@ func runC19(c *an.Ctx) {
 			}
 		}
 		c.Check(okOnly, "PRED", allow, st.Pos(), an.KeyOf(allow, "record-implies-admit"), "a call whose timestamp is appended to the list is always answered true (refused calls leave the list unchanged, so they cannot starve later callers)", why)
+	}
+	if staleTest {
+		c.Violated("PRED", allow, allow.Pos(), an.KeyOf(allow, "admit-after-expiry"), "the admission test measures the request list before this call's expiry step ran (or a list some other write produced): a call arriving after an idle window is judged by the stale, still full list and starved", "the len(reqs) in the limit test does not read the value the expiry step stored")
 	}
 	c.Count("PRED", nTrue)
 	if nTrue == 0 {
@@ -310,6 +385,13 @@ func runC19(c *an.Ctx) {
 	}
 	if !(haveEmpty && haveSuffix && nSl >= 1 && nSl <= 2) {
 		c.Violated("FORM", allow, allow.Pos(), an.KeyOf(allow, "kept-count"), "the expiry step must store either the suffix that starts at the first unexpired timestamp (reqs[idx:]) or, when none is unexpired, the empty list (reqs[:0]); found "+fmt.Sprint(nSl)+" reslicing store(s): some path keeps expired entries or drops unexpired ones", "the sliding-window rules are established for this form only")
+	}
+	// "never admits more than the limit" at the endpoint the limiter guards: a refused request gets no archive (rule owned by C14)
+	if c.R.Prop != "C14" {
+		if h, bc := findArchiveHandler(p); h != nil {
+			c.Scope(h)
+			archiveLimitRules(c, h, bc)
+		}
 	}
 	// the expiry runs before the admission test on every path: every store that reslices dominates the limit test / the returns
 	_ = lf
